@@ -41,7 +41,9 @@ check("C01", "model_checking",
       "TLA+ L0 spec (Ideal) + TLC exhaustive MC + TLC trace validation of recorded implementation executions", "§3.3, §4 C01")
 check("C02", "model_checking",
       "L0's acceptance rule (accept iff an entry with identical bytes, footer, assertion, header and key) is model-checked; every tamper class "
-      "of the property is applied to real tokens of every backend/purpose and each parse/unseal event is validated against L0 by TLC.", TRACE_NOTE,
+      "of the property is applied to real tokens of every backend/purpose (plus a sweep that alters the last byte of message, footer and "
+      "assertion at total sizes 0..1300, degenerate tags / signatures, suffix-bearing tokens with every footer length to 140) and each "
+      "parse/unseal event is validated against L0 by TLC.", TRACE_NOTE,
       "TLA+ L0 spec (Ideal) + TLC exhaustive MC + TLC trace validation of tamper campaigns", "§4 C02")
 check("C12", "model_checking",
       "L0's enabling conditions (Decode only if authenticated, Validate only if decoded, error class of ReturnErr) are invariants of the model; "
@@ -54,7 +56,8 @@ check("C05", "model_checking",
       "TLA+ L0 spec (Ideal, Versions) + TLC MC + TLC trace validation", "§4 C05")
 check("C06", "model_checking",
       "As C02 for wrapped and sealed keys: bit flips over every byte (all bits of the PBKW parameter block), truncations, extensions, other "
-      "secrets, relabel local<->secret and across versions, each unwrap validated against L0's blob table by TLC.", TRACE_NOTE +
+      "secrets, relabel local<->secret and across versions, text-level extensions of the serialised string, each unwrap validated against "
+      "L0's blob table by TLC.", TRACE_NOTE +
       " PBKW costs beyond the stated budget are parsed but not executed; passwords are compared by their identity as PBKDF2-HMAC keys for k1/k3.",
       "TLA+ L0 spec (Ideal) + TLC MC + TLC trace validation of tamper campaigns", "§4 C06")
 check("C11", "model_checking",
@@ -101,7 +104,8 @@ check("C08", "model_checking",
       "Keys.tla defines, per (version, key kind), which byte strings are keys (length tables, scalar range computed in TLA+, curve membership "
       "and seed->public as predicates answered by an oracle independent of the backend) and what must hold of every accepted key; MC_Keys "
       "explores the table; every byte string of length 0..128 and a catalogue of degenerate encodings are offered to every backend and each "
-      "outcome (accept/reject, re-encode, reparse, clone, public half, sign/verify) is validated by TLC.",
+      "outcome (accept/reject, re-encode, reparse, clone, public half, sign/verify) is validated by TLC; keys from random() are exported, "
+      "parsed and compared; KeyText values of unequal lengths compare, order and hash as their bytes.",
       "Trusted: TLC, the oracles (p384 crate <-> aws-lc, dalek <-> libsodium, a 15-line big-integer curve test, aws-lc's RSA DER parser), the "
       "harness recorder (negative control each run).",
       "TLA+ spec (Keys) + TLC MC of the validity table + TLC observation-set validation with independent oracles", "§4 C08")
@@ -109,7 +113,8 @@ check("C08", "model_checking",
 check("C10", "model_checking",
       "MC_Headers checks on all 52 x 52 header pairs that the text grammar (TextFormat.tla) is prefix-free and never accepts a text of another "
       "(kind, version); every valid value of 15 kinds x 6 backends is offered to 18 parsers x 6 backends and TLC validates each outcome "
-      "(accept iff same version and same PASERK text kind); header rewriting of authenticated wrapped keys is validated against L0.",
+      "(accept iff same version and same PASERK text kind), as text through FromStr and as CBOR text / CBOR bytes through serde; header "
+      "rewriting of authenticated wrapped keys is validated against L0.",
       "Trusted: TLC, Json reader, harness recorder (negative control each run). Wrong-length key bytes are C08's observations.",
       "TLA+ spec (TextFormat, HeaderTable, Ideal) + TLC exhaustive MC + TLC observation-set and trace validation", "§4 C10")
 
@@ -124,8 +129,9 @@ check("C04", "exploration",
 check("C16", "fault_enumeration",
       "L0 (Ideal.tla) admits Emit only when every draw and encoder succeeded, requires every embedded random field to be new (`used`), and "
       "Rng.tla fixes where the drawn value must appear; MC checks fail-closed on the model; every draw index of every operation of the "
-      "getrandom-based backends is failed (cleanly and after a partial fill) through a custom getrandom backend, and hundreds to thousands of "
-      "consecutive operations with identical inputs are validated for freshness, all as TLC-validated traces.",
+      "getrandom-based backends is failed (one draw cleanly, one draw after a partial fill, and as an outage: that draw and every later one) "
+      "through a custom getrandom backend, and hundreds to thousands of consecutive operations with identical inputs are validated for "
+      "freshness, all as TLC-validated traces; the thorough tier repeats freshness and wrap faults on drivers compiled in the release profile.",
       "aws-lc's and libsodium's RNGs cannot be failed from outside the process: for those two backends only freshness is checked. RSA paths of "
       "paseto-v1 draw through getrandom 0.2 (OsRng) and are not failed here.",
       "TLA+ L0 spec (Ideal, Rng) + TLC MC + fault injection via custom getrandom backend + TLC trace validation", "§4 C16")
